@@ -1,4 +1,5 @@
 import AmVerif.Model.World
+import AmVerif.Gen.TabShard
 /-!
 # The map behind the cache: sharded (`cache::AssetMap`), flat (`local_cache::AssetMap`), abstract
 
